@@ -494,7 +494,15 @@ class IMAPClientCommand:
         init method so that if we hit a parsing exception the actual object
         gets created at least and potentially has self.tag set.
         """
-        self._parse()
+        # NOTE: Our callers only expect `BadCommand`. Anything else would
+        #       leave the client without a response and disconnect it: a
+        #       number with more digits than `int()` accepts, a search
+        #       expression nested deeper than the recursion limit.
+        #
+        try:
+            self._parse()
+        except (ValueError, OverflowError, RecursionError) as e:
+            raise BadSyntax(value=f"unparsable command: {e}") from e
         return self
 
     ####################################################################
